@@ -31,18 +31,19 @@ def starts (p : Bytes) : List (Nat × Insn) := JitAst.sweep p (p.size / 8 + 1) 0
 /-- every instruction is in a covered class, or is `exit` -/
 def Covered (p : Bytes) : Prop := ∀ x ∈ starts p, x.2.opc.toNat ∈ coveredOpcodes ∨ x.2.opc.toNat = 0x95
 
-/-- between two arms at call depth 0: `Rel0`, the bytes above the eBPF stack are `top`, and the machine is at the arm of
+/-- between two arms at call depth 0 (`depth0`): `Rel0`, the bytes above the eBPF stack are `top`, and the machine is at the arm of
     `s.pc`, which is an instruction start -/
 structure Rel (c : Cfg) (p : Bytes) (L : JitAst.Layout) (retAddr : Nat) (top : List (BitVec 8)) (σ : St) (s : State) : Prop where
   rel0 : Rel0 retAddr σ s
   top : topBytes σ s = some top
   start : ∃ i, (s.pc, i) ∈ starts p
   rip : ∃ l, L.pcLocs[s.pc]? = some l ∧ σ.rip = c.codeBase + l
+  depth0 : s.frames = []
 
 /-- `Rel` is `whole_Rel` of `WholeRun.lean` (where the proofs are, with the class lemmas as a hypothesis) -/
 theorem whole_rel_iff (c : Cfg) (p : Bytes) (L : JitAst.Layout) (retAddr : Nat) (top : List (BitVec 8)) (σ : St) (s : State) :
     Rel c p L retAddr top σ s ↔ whole_Rel c p L retAddr top σ s :=
-  ⟨fun h => ⟨h.rel0, h.top, h.start, h.rip⟩, fun h => ⟨h.rel0, h.top, h.start, h.rip⟩⟩
+  ⟨fun h => ⟨h.rel0, h.top, h.start, h.rip, h.depth0⟩, fun h => ⟨h.rel0, h.top, h.start, h.rip, h.depth0⟩⟩
 
 /-- one step of the register-transfer semantics that continues is matched by finitely many machine steps, and the
     relation holds again — provided the next pc is still inside the program (a run that falls off the end panics) -/
